@@ -143,7 +143,7 @@ def base_meta(rec):
 
 def gen_recipe(rng, small=False):
     n = rng.choice([1, 2, 3, 5, 8, 13] + ([] if small else [21, 40]))
-    shape = [rng.randint(2, 6), rng.randint(2, 7)]
+    shape = [rng.randint(4, 7), rng.randint(4, 8)]
     r = rng.random()
     scal = [s for s in SCALARS if rng.random() < 0.4]
     rec = dict(n=n, shape=shape, tlen=rng.choice([4, 7, 12]),
@@ -209,9 +209,13 @@ def recipe_features(rec):
     for k in IMG_KINDS:
         if rec[k]:
             if k == "mask":
-                feats[k] = np.array(
-                    [[[rng.random() < .4 for _ in range(w)] for _ in range(h)]
-                     for _ in range(n)], dtype=bool)
+                # a filled rectangle away from the border (has a contour)
+                m = np.zeros((n, h, w), dtype=bool)
+                for e in range(n):
+                    y1 = rng.randint(2, h - 2)
+                    x1 = rng.randint(2, w - 2)
+                    m[e, 1:y1 + 1, 1:x1 + 1] = True
+                feats[k] = m
             else:
                 feats[k] = np.array(
                     [[[rng.randint(1, 255) for _ in range(w)]
@@ -344,7 +348,10 @@ def abstract(h5):
 
     events = h5["events"] if "events" in h5 else {}
     names = sorted(events.keys())
-    rank = {nm: i for i, nm in enumerate(names)}
+    # rank: position among the names known to dclab (order isomorphic to the
+    # names; unknown members of /events are invisible to the reader)
+    rank = {nm: i for i, nm in enumerate(
+        [x for x in names if dfn.feature_exists(x)])}
     feats, traces, unknown, uid = [], [], [], {}
     sc[10] = [rank.get("trace", 0)]
     for nm in names:
@@ -480,7 +487,9 @@ def run_impl(path):
         viol = check_dataset(path)[0]
         if list(viol) != msgs:
             ids.append([98, 0, 0])    # check_dataset disagrees with check()
-    except Exception as e:
+    except BaseException as e:   # OldFormatNotSupportedError is one
+        if isinstance(e, (KeyboardInterrupt, SystemExit)):
+            raise
         ids = [[-1, 0, 0]]
         msgs = "%s: %s" % (e.__class__.__name__, str(e)[:200])
     return ids, msgs, case, info
@@ -901,6 +910,9 @@ def gen_case(rng, k):
         case["n2"] = rng.choice([1, 2, 5])
     r = rng.random()
     case["ncorr"] = 0 if r < 0.25 else (1 if r < 0.7 else 2)
+    r = rng.random()
+    case["copycheck"] = "compress" if r < 0.25 else (
+        "repack" if r < 0.5 else None)
     return case
 
 
@@ -919,7 +931,7 @@ def eval_case(args):
     try:
         try:
             path, extra = make_path_file(case, d)
-        except Exception as e:
+        except BaseException as e:
             return [dict(kind="build-error", case=case,
                          error="%s: %s" % (e.__class__.__name__,
                                            str(e)[:300]),
@@ -932,7 +944,10 @@ def eval_case(args):
         if ids:
             kept = extra.get("kept")
             fid = None
-            if case["path"] == "export" and ids == [[6, 18, 0]]:
+            if case["path"] == "export" and ids == [[6, 18, 0]] and any(
+                    "fl%d_max" % i not in kept for i in case["recipe"]["fl"]):
+                # a fluorescence channel was left out of the export, the
+                # channel count of the source is kept
                 fid = FINDING_SUBSET
             rec["fails"].append(dict(
                 desc="file written by %s is reported with violations: %s" %
@@ -1006,26 +1021,34 @@ def eval_case(args):
             recs.append(crec)
             cur = cpath
         # --- same violations after compress / repack
-        if case.get("copycheck", True):
+        if case.get("copycheck"):
             from dclab import cli
             from dclab.rtdc_dataset.check import check_dataset
-            for tool in ("compress", "repack"):
+            for tool in [case["copycheck"]]:
                 cp = os.path.join(d, "copy-%s.rtdc" % tool)
                 try:
                     with _quiet():
                         getattr(cli, tool)(path_in=cur, path_out=cp)
-                except Exception as e:
+                except BaseException as e:
                     recs.append(dict(kind="copy-skipped", tool=tool,
                                      error=e.__class__.__name__))
                     continue
                 try:
                     va = check_dataset(cur)[0]
-                except Exception as e:
+                except BaseException as e:
                     va = "exception " + e.__class__.__name__
                 try:
                     vb = check_dataset(cp)[0]
-                except Exception as e:
+                except BaseException as e:
                     vb = "exception " + e.__class__.__name__
+                if any(isinstance(v, str) and "OldFormat" in v
+                       for v in (va, vb)):
+                    # sandbox artefact: the untagged development build
+                    # brands the copy with a version it refuses to re-open
+                    # (the corruption removed setup:software version)
+                    recs.append(dict(kind="copy-skipped", tool=tool,
+                                     error="OldFormatNotSupportedError"))
+                    continue
                 with h5py.File(cur, "r") as h5:
                     a0 = abstract(h5)[0]
                 idsc, _, a1, _ = run_impl(cp)
@@ -1036,8 +1059,9 @@ def eval_case(args):
                 # the tools write through RTDCWriter: the copy is the
                 # original with the metadata completion applied and external
                 # data copied in (model: rectify)
-                a0x = dict(a0, sc=list(a0["sc"]))
+                a0x = dict(a0, sc=list(a0["sc"]), unknown=[])
                 a0x["sc"][11] = [0]
+                r["rectifies"] = (tool == "compress")
                 sc = a1["sc"]
 
                 def o(x):
@@ -1055,6 +1079,17 @@ def eval_case(args):
     finally:
         shutil.rmtree(d, ignore_errors=True)
     return recs
+
+
+def safe_eval_case(args):
+    try:
+        return eval_case(args)
+    except BaseException as e:
+        if isinstance(e, KeyboardInterrupt):
+            raise
+        return [dict(kind="harness-error", case=args[0],
+                     error="%s: %s" % (e.__class__.__name__, str(e)[:300]),
+                     tb=traceback.format_exc()[-1500:])]
 
 
 def _object_of(c):
@@ -1157,11 +1192,12 @@ def evaluate(cases, scratch, procs=None):
     jobs = [(c, base) for c in cases]
     procs = procs or min(common.NCPU, 16)
     if procs > 1 and len(jobs) > 4:
+        import concurrent.futures as cf
         ctx = multiprocessing.get_context("fork")
-        with ctx.Pool(procs) as pool:
-            out = pool.map(eval_case, jobs, chunksize=4)
+        with cf.ProcessPoolExecutor(procs, mp_context=ctx) as pool:
+            out = list(pool.map(safe_eval_case, jobs, chunksize=2))
     else:
-        out = [eval_case(j) for j in jobs]
+        out = [safe_eval_case(j) for j in jobs]
     return [r for rs in out for r in rs]
 
 
@@ -1188,6 +1224,9 @@ def feed(run, records):
             run.oracle_failure(r["case"], "dclab write path %s failed: %s" % (
                 r["case"]["path"], r["error"]), None)
             continue
+        if kind == "harness-error":
+            run.broken.append(("harness(C13)", r["error"] + " | " + r["tb"]))
+            continue
         if kind == "copy-skipped":
             run.count("copy-skipped:%s:%s" % (r["tool"], r["error"]))
             continue
@@ -1197,7 +1236,11 @@ def feed(run, records):
             run.record_case(r["case"], True, sample=False)
             run.count("copy:%s:%s" % (r["tool"], "preserved" if r["preserved"]
                                       else "repaired-by-writer"))
-            writers.append((r["case"], r["writer"]))
+            if r["rectifies"]:
+                writers.append((r["case"], r["writer"]))
+            else:
+                corr.append((r["case"], r["writer"]["abs"],
+                             r["writer"]["ids"]))
             continue
         run.record_case(r["case"], r["nontrivial"])
         run.count("path:" + r["path_kind"])
@@ -1239,7 +1282,7 @@ def shrink(run, failure):
 
     def fails(c):
         try:
-            recs = eval_case((dict(c, copycheck="copy" in case),
+            recs = eval_case((dict(c, copycheck=case.get("copy")),
                               os.path.join(run.scratch, "shrink")))
         except Exception:
             return None
@@ -1326,7 +1369,7 @@ def replay(payload):
     d = tempfile.mkdtemp(prefix="verif-C13-replay-",
                          dir=os.environ.get("VERIF_SCRATCH", "/var/tmp"))
     try:
-        recs = eval_case((dict(case, copycheck="copy" in case), d))
+        recs = eval_case((dict(case, copycheck=case.get("copy")), d))
     finally:
         shutil.rmtree(d, ignore_errors=True)
     print("case:", json.dumps(case))
